@@ -133,7 +133,7 @@ def run(chk):
                 ("random_deep", dict(Threads=[1], Names=[1, 2, 3], Metrics=[1, 2], MaxSpans=5, MaxDepth=4, FilterId=0, SimLen=18))]
         for name, kw in sims:
             cfg = sim_cfg(name, "RandomSpec", "PrintRandom", **kw)
-            num = 1500 if thorough else 250
+            num = 2000 if thorough else 400
             r = vlib.tlc_mc(SPEC, "SimTracingLabels", cfg, workers=1, timeout=900, coverage=False, tag=name,
                             extra=["-simulate", "num=%d" % num, "-depth", "40", "-seed", str(chk.seed)])
             behs = vlib.replay_lines(r["out"])
